@@ -341,6 +341,7 @@ class Run:
         self.nontrivial = False
         self.pack_since_backup = False
         self.trace = []
+        self.excluded_notes = []
 
     def count(self, k, n=1):
         self.counts[k] = self.counts.get(k, 0) + n
@@ -487,8 +488,11 @@ class Run:
             return True
         _fn, s, e, sm = ls[-1].split()
         s, e = int(s), int(e)
-        return (len(raw) < e or hashlib.md5(raw[s:e]).hexdigest() != sm
-                or raw[:e] == ch[-1].snapshot)
+        if len(raw) < e or hashlib.md5(raw[s:e]).hexdigest() != sm:
+            return True
+        # what the chain's files (by the harness's own record of the chain) reproduce
+        have = b''.join(read_content(os.path.join(self.repo, x.fname)) or b'' for x in ch)
+        return raw[:e] == have
 
     def do_backup(self, st):
         flags = st['flags'].replace('-', '')
@@ -622,6 +626,11 @@ class Run:
             return obs
         if e.excluded:
             self.count('recover:outside-QuickDetectable(not judged)')
+            if len(self.excluded_notes) < 4:
+                self.excluded_notes.append(
+                    '%s: exit %s, %s bytes, %s the committed part of Data.fs at that backup (%d bytes)' % (
+                        desc, status, 'no' if data is None else len(data),
+                        'EQUAL to' if data == e.snapshot else 'DIFFERENT from', len(e.snapshot)))
             return obs
         ctx = 'in-progress' if e.in_progress else 'after-pack' if e.after_pack else 'plain'
         if status != 0:
@@ -790,7 +799,7 @@ def run_case(ck_tmp, case, tag):
     r = Run(ck_tmp, case, tag, counts)
     r.execute()
     return dict(lines=r.lines, violations=r.violations, counts=counts, nontrivial=r.nontrivial,
-                trace=r.trace)
+                trace=r.trace, excluded_notes=r.excluded_notes)
 
 
 def _worker(args):
@@ -840,7 +849,7 @@ def main(argv=None):
     ck.extra['modules'] = ['Props.C18', 'Drivers.Repozo']
     ck.run_gate(ck.extra['modules'], ['Props.C18'])
     import ZODB.scripts.repozo  # noqa: F401  (fail early, as an infra error, if the import breaks)
-    nscen = 70 if not ck.thorough else 900
+    nscen = 200 if not ck.thorough else 1500
     final = dict(variants=2, max_damages=20) if not ck.thorough else dict(variants=3, max_damages=None)
     cases = []
     if ck.replay_path:
@@ -898,8 +907,13 @@ def main(argv=None):
         if expect_excluded:
             ck.extra.setdefault('coverage', {}).setdefault('excluded_points', []).append(
                 dict(name=case.get('name'), note=case.get('note'),
-                     outcome=[l for l in res['trace']],
-                     not_judged=res['counts'].get('recover:outside-QuickDetectable(not judged)', 0)))
+                     backups=[l for l in res['trace']],
+                     reached=res['counts'].get('quick-backup:QuickDetectable=False', 0) > 0,
+                     outcome_on_real_code=res['excluded_notes'],
+                     recovers_not_judged=res['counts'].get('recover:outside-QuickDetectable(not judged)', 0),
+                     model_agrees_with_code=not any(
+                         real is not None and not same(op, real, m)
+                         for (op, real), m in zip(res['lines'], mo))))
     ck.finish(
         rule='seeded scenarios on a live FileStorage: small commits, packs (gc on/off, various pack '
              'times), one transaction left in progress (voted, not finished) while backups run, backups '
